@@ -71,7 +71,11 @@ Definition node_ok (c : C05_case) (n : rnode) : bool :=
   | 0%nat => match find_row (c5_art c) [rn_key n] (rn_tx n), lget (rl_art after) (rn_key n) with
              | Some v, Some [a; b; _] => list_eqb val_eqb [a; b] (vdat v)
              | _, _ => false end &&
-             (negb (restores_tags n) || same_keys (tags_of after (rn_key n)) (version_tags c n))
+             (* the reverted tag itself (the root of the call) is not judged as a child of a reached article: the root is
+                restored from ITS version, whatever set the article's version shows *)
+             (negb (restores_tags n) ||
+              let notroot := filter (fun t => negb ((c5_tab c =? 1)%nat && (t =? c5_key c))) in
+              same_keys (notroot (tags_of after (rn_key n))) (notroot (version_tags c n)))
   | 1%nat => match find_row (c5_tag c) [rn_key n] (rn_tx n), lget (rl_tag after) (rn_key n) with
              | Some v, Some vals => list_eqb val_eqb vals (vdat v)
              | _, _ => false end
